@@ -132,6 +132,11 @@ def run(case, ctx):
             refa = refa.astype(dtype)
             pred[pred == 1] = top
             refa[refa == 2] = top - 1
+            if np.dtype(dtype).itemsize >= 2:
+                # together with classes that a too narrow cast would send to 0 or onto another class
+                pred[pred == 2] = 256
+                refa[refa == 3] = 513
+                pred[pred == 3] = 257 if i % 10 == 0 else 3
         pred, refa = pred.astype(dtype), refa.astype(dtype)
         for backend in (None, "cc3d", "scipy"):
             approx(ctx, pred, refa, backend, fam)
